@@ -923,38 +923,37 @@ func c20PathCmp(r *Report) {
 			continue
 		}
 		// (b) every string comparison is between p[i] and q[i] for the same i; nothing else is compared or called
-		nCmp := 0
-		bad := ""
-		allInstrs(f, func(in ssa.Instruction) {
-			switch x := in.(type) {
-			case *ssa.BinOp:
-				if !isStringKind(x.X.Type()) {
-					return
-				}
-				switch x.Op {
-				case token.EQL, token.NEQ, token.LSS, token.GTR, token.LEQ, token.GEQ:
-				default:
-					if bad == "" {
-						bad = "strings are combined (" + exprStr(x) + ") at " + p.pos(x.Pos())
+		var cw func(f *ssa.Function, ops []ssa.Value, depth int) (int, string)
+		cw = func(f *ssa.Function, ops []ssa.Value, depth int) (int, string) {
+			nCmp := 0
+			bad := ""
+			allInstrs(f, func(in ssa.Instruction) {
+				switch x := in.(type) {
+				case *ssa.BinOp:
+					if !isStringKind(x.X.Type()) {
+						return
 					}
-					return
-				}
-				ka, ia := elemOf(x.X, ops)
-				kb, ib := elemOf(x.Y, ops)
-				if ka < 0 || kb < 0 || ka == kb || ia != ib {
-					if bad == "" {
-						bad = "the comparison " + exprStr(x) + " at " + p.pos(x.Pos()) + " is not between the components of the two paths at one index"
+					switch x.Op {
+					case token.EQL, token.NEQ, token.LSS, token.GTR, token.LEQ, token.GEQ:
+					default:
+						if bad == "" {
+							bad = "strings are combined (" + exprStr(x) + ") at " + p.pos(x.Pos())
+						}
+						return
 					}
-					return
-				}
-				nCmp++
-			case *ssa.Call:
-				if bi, ok := x.Call.Value.(*ssa.Builtin); ok && (bi.Name() == "len" || bi.Name() == "min" || bi.Name() == "max") {
-					return
-				}
-				// a component-wise comparison of (a slice of) one operand with (a slice of) the other: the sibling
-				// Path.Equal — itself checked — or slices.Equal
-				if o := calleeObj(x); o != nil && o.Pkg() != nil && o.Name() == "Equal" && (o.Pkg().Path() == "slices" || hasSuffix(o.Pkg().Path(), "/path")) && len(x.Call.Args) == 2 && x.Call.StaticCallee() != f {
+					ka, ia := elemOf(x.X, ops)
+					kb, ib := elemOf(x.Y, ops)
+					if ka < 0 || kb < 0 || ka == kb || ia != ib {
+						if bad == "" {
+							bad = "the comparison " + exprStr(x) + " at " + p.pos(x.Pos()) + " is not between the components of the two paths at one index"
+						}
+						return
+					}
+					nCmp++
+				case *ssa.Call:
+					if bi, ok := x.Call.Value.(*ssa.Builtin); ok && (bi.Name() == "len" || bi.Name() == "min" || bi.Name() == "max") {
+						return
+					}
 					base := func(v ssa.Value) int {
 						v = strip(v)
 						if sl, ok := v.(*ssa.Slice); ok {
@@ -967,16 +966,37 @@ func c20PathCmp(r *Report) {
 						}
 						return -1
 					}
-					if a, b := base(x.Call.Args[0]), base(x.Call.Args[1]); a >= 0 && b >= 0 && a != b {
-						nCmp++
-						return
+					// a component-wise comparison of (a slice of) one operand with (a slice of) the other: the sibling
+					// Path.Equal — itself checked — or slices.Equal
+					if o := calleeObj(x); o != nil && o.Pkg() != nil && o.Name() == "Equal" && (o.Pkg().Path() == "slices" || hasSuffix(o.Pkg().Path(), "/path")) && len(x.Call.Args) == 2 && x.Call.StaticCallee() != f {
+						if a, b := base(x.Call.Args[0]), base(x.Call.Args[1]); a >= 0 && b >= 0 && a != b {
+							nCmp++
+							return
+						}
+					}
+					// … or a private helper of the package handed the two operands, itself component-wise (p.hasPrefix(d))
+					if h := x.Call.StaticCallee(); h != nil && h.Blocks != nil && !x.Call.IsInvoke() && relPkg(h) == "path" && h != f && depth < 2 && len(x.Call.Args) == 2 && len(h.Params) == 2 {
+						if a, b := base(x.Call.Args[0]), base(x.Call.Args[1]); a >= 0 && b >= 0 && a != b {
+							n2, bad2 := cw(h, []ssa.Value{h.Params[0], h.Params[1]}, depth+1)
+							if bad2 == "" && n2 > 0 {
+								r.Fn(h)
+								nCmp += n2
+								return
+							}
+							if bad == "" && bad2 != "" {
+								bad = "its helper " + fname(h) + ": " + bad2
+							}
+							return
+						}
+					}
+					if bad == "" {
+						bad = "it calls " + exprStr(x) + " at " + p.pos(x.Pos())
 					}
 				}
-				if bad == "" {
-					bad = "it calls " + exprStr(x) + " at " + p.pos(x.Pos())
-				}
-			}
-		})
+			})
+			return nCmp, bad
+		}
+		nCmp, bad := cw(f, ops, 0)
 		if bad != "" || nCmp == 0 {
 			if bad == "" {
 				bad = "no comparison of components found"
@@ -1028,9 +1048,56 @@ func c20PathCmp(r *Report) {
 					}
 					reached++
 					held := false
+					rel := map[token.Token]bool{}
 					for _, g := range guardsOnEdge(ph.Block().Preds[i], ph.Block()) {
 						g = g.norm()
 						if isLenCmp(g.Cond, g.Pol) {
+							held = true
+						}
+						if op, ok := lenRelation(g, ops[0], ops[1]); ok {
+							rel[op] = true
+						}
+					}
+					// len(p) != len(d) && p.hasPrefix(d): what the helper's true outcome says about the lengths
+					if c, isC := e.(*ssa.Call); isC && !held {
+						if h := c.Call.StaticCallee(); h != nil && h.Blocks != nil && !c.Call.IsInvoke() && relPkg(h) == "path" && len(c.Call.Args) == 2 && len(h.Params) == 2 {
+							swap := -1
+							if strip(c.Call.Args[0]) == ops[0] && strip(c.Call.Args[1]) == ops[1] {
+								swap = 0
+							} else if strip(c.Call.Args[0]) == ops[1] && strip(c.Call.Args[1]) == ops[0] {
+								swap = 1
+							}
+							if swap >= 0 {
+								var common map[token.Token]bool
+								for _, hr := range returnsOf(h) {
+									if b, isb := constBool(hr.Results[0]); isb && !b {
+										continue
+									}
+									here := map[token.Token]bool{}
+									for _, g := range guardsOf(hr.Block()) {
+										if op, ok := lenRelation(g.norm(), h.Params[swap], h.Params[1-swap]); ok {
+											here[op] = true
+										}
+									}
+									if common == nil {
+										common = here
+									} else {
+										for k := range common {
+											if !here[k] {
+												delete(common, k)
+											}
+										}
+									}
+								}
+								for k := range common {
+									rel[k] = true
+								}
+							}
+						}
+						if name == "Within" && (rel[token.GTR] || (rel[token.GEQ] && rel[token.NEQ])) {
+							held = true
+						}
+						if name == "Equal" && (rel[token.EQL] || (rel[token.GEQ] && rel[token.LEQ])) {
 							held = true
 						}
 					}
@@ -1053,6 +1120,31 @@ func c20PathCmp(r *Report) {
 		}
 		r.Check(reached > 0 && lenOK, "R1", key+"/length-relation", f.Pos(), "every return that can be true has passed "+want, "path."+name+" can return true without having established "+want+": a path that is a proper prefix (or extension) of a file's path resolves to that file")
 	}
+}
+
+// lenRelation: guard g states len(a) OP len(b); returns OP (normalised to a on the left, polarity folded in).
+func lenRelation(g Guard, a, b ssa.Value) (token.Token, bool) {
+	op, x, y, ok := cmpFact(g)
+	if !ok {
+		return 0, false
+	}
+	if isLenOf(x, a) && isLenOf(y, b) {
+		return op, true
+	}
+	if isLenOf(x, b) && isLenOf(y, a) {
+		switch op {
+		case token.LSS:
+			return token.GTR, true
+		case token.GTR:
+			return token.LSS, true
+		case token.LEQ:
+			return token.GEQ, true
+		case token.GEQ:
+			return token.LEQ, true
+		}
+		return op, true
+	}
+	return 0, false
 }
 
 // ---------- R1 (continued): the file table is indexed by file indices ----------
